@@ -395,14 +395,14 @@ def integrated_checks(rep, rng, drv, k, inp, NQ, D, Dr, D0, a, b, c, convex, o, 
         key = KEY_F4 if (f4["D"] or f4["D0"]) else None
         kw = dict(finding_key=key) if key else {}
         rep.violate(what="integrated average_tuning_curve of D is not a+(b-a) times that of D0 (2e-4 of the scale)"
-                         + (": premature convergence of the trapezoid rule at the 1[y>0] jump inside [a-6o, b+6o]" if key else ""),
+                         + (": premature stop of the trapezoid refinement (the value equals the Lean model of the loop, so the error estimate itself was fooled)" if key else ""),
                     input=dict(inp, n=C.fhex(n), minimize=mn), expected=a + w * v0, observed=v, detail=detail,
                     call=cls + ".average_tuning_curve", **kw)
     if bad_r:
         key = KEY_F4 if (f4["D"] or f4["Dr"]) else None
         kw = dict(finding_key=key) if key else {}
         rep.violate(what="integrated average_tuning_curve of D is not minus the complementary curve of D' (2e-4 of the scale)"
-                         + (": premature convergence of the trapezoid rule at the 1[y>0] jump inside [a-6o, b+6o]" if key else ""),
+                         + (": premature stop of the trapezoid refinement (the value equals the Lean model of the loop, so the error estimate itself was fooled)" if key else ""),
                     input=dict(inp, n=C.fhex(n), minimize=mn), expected=-vr, observed=v, detail=detail,
                     call=cls + ".average_tuning_curve", **kw)
 
